@@ -52,7 +52,14 @@ class Ctx:
         b = self.w.base_root(node)
         if b.tag is not None:
             return [b.tag]
-        t = norm(b.dyn)
+        dyn = b.dyn
+        if isinstance(dyn, ast.Name) and b.origin is not None:
+            # the tag was computed into a local first: the one expression it is bound to
+            f_ = self.mod.enclosing_function(b.origin)
+            asg = [st for st in ast.walk(f_) if isinstance(st, ast.Assign) and len(st.targets) == 1 and isinstance(st.targets[0], ast.Name) and st.targets[0].id == dyn.id] if f_ is not None else []
+            if len(asg) == 1:
+                dyn = asg[0].value
+        t = norm(dyn)
         if t.endswith(".value + 'Obstacle'"):
             # role passed by the caller of the header builder
             roles = []
